@@ -171,6 +171,13 @@ def fault_case(case, part):
         lines = content.split(b"\n")
         lines[fault["row"]] = lines[fault["row"]][:1] + b"\x81" + lines[fault["row"]][2:]
         content = b"\n".join(lines)
+    elif kind == "bad-byte-at-delimiter":
+        # the first byte of a multi-byte character sits where the line delimiter of that record is read (or the file ends inside it)
+        lines = content.split(b"\n")
+        lines[fault["row"]] = lines[fault["row"]] + b"\xc3"
+        content = b"\n".join(lines)
+        if fault.get("drop_tail"):
+            content = b"\n".join(lines[: fault["row"] + 1])
     elif kind == "open-quote":
         lines = content.split(b"\n")
         lines[fault["row"]] = fault.get("quote", '"').encode("ascii") + lines[fault["row"]]
@@ -257,6 +264,8 @@ def fault_cases(tier):
         for row in range(len(table)):
             for encoding in ("utf-8", "ascii", "cp1252"):
                 cases.append({"config": config, "table": table, "fault": {"kind": "bad-byte", "row": row, "encoding": encoding}})
+            cases.append({"config": config, "table": table, "fault": {"kind": "bad-byte-at-delimiter", "row": row, "encoding": "utf-8"}})
+            cases.append({"config": config, "table": table, "fault": {"kind": "bad-byte-at-delimiter", "row": row, "encoding": "utf-8", "drop_tail": True}})
             if preset == "delimited":
                 cases.append({"config": config, "table": table, "fault": {"kind": "open-quote", "row": row}})
                 # the same fault under every relation of quote and escape character, quoting mode and line delimiter
